@@ -66,7 +66,7 @@ var (
 // MainC08 is the entry point of the C08 check.
 func MainC08() {
 	ev.Main("C08", "exploration",
-		"generated worlds (permanodes with tag/title/camliNodeType/camliDefVis/camliContent/camliMember/camliPath/numeric attributes, custom edge attributes (seeAlso, camliContent naming a permanode; superseded and removed edges) for relation constraints with an explicit edge type in both directions, explicit date attributes (dateCreated, startDate, paymentDueDate, datePublished, dateModified) holding instants shared with other permanodes in several RFC 3339 zone notations, values added repeatedly and then removed, sets with several multi-tagged members, deleted and claim-less permanodes, files with names/sizes/mtimes/wholeRefs incl. two files of one content, nested directories with shared children, plain blobs) x generated constraint trees (depth<=4, nodes with one or several fields set, valueInSet over logical sub-trees, `at` instants at value removals) over the supported fragment x every sort (incl. map) x limits {-1,1,3,0,|M|,|M|-1,|M|+1} x index modes {classic, corpus scanned, corpus incremental, corpus staged = the world delivered in 5 stages with the same queries after every stage, claims often before the file they name and stages without any claim}; each result is compared with a reference evaluator over what has been delivered (set equality at limit -1, order by the documented key, valid first-N) ; special-time worlds: claim dates straddling 1970-01-01T00:00:00Z with permanodes created EXACTLY at the Unix epoch (date attributes in several zone notations, a camliContent file with modtime 0) or 1 ns / 1 s / 999 ms next to it, and worlds with date attributes before 1678 / after 2262 (years 1, 1215, 1455, 2500, 9999, the ends of the int64-nanosecond range, ties across notations), each with directed time/modTime constraints whose bounds lie exactly on those instants (alone, negated, and-ed, two-sided) plus the directed and random constraint lists, under every sort and limit; distinct = (world, constraint, sort, limit, mode[@stage]); non-trivial = the reference match set is neither empty nor everything",
+		"generated worlds (permanodes with tag/title/camliNodeType/camliDefVis/camliContent/camliMember/camliPath/numeric attributes, custom edge attributes (seeAlso, camliContent naming a permanode; superseded and removed edges) for relation constraints with an explicit edge type in both directions, explicit date attributes (dateCreated, startDate, paymentDueDate, datePublished, dateModified) holding instants shared with other permanodes in several RFC 3339 zone notations, values added repeatedly and then removed, sets with several multi-tagged members, deleted and claim-less permanodes, files with names/sizes/mtimes/wholeRefs incl. two files of one content, nested directories with shared children, plain blobs) x generated constraint trees (depth<=4, nodes with one or several fields set, valueInSet over logical sub-trees, `at` instants at value removals) over the supported fragment x every sort (incl. map) x limits {-1,1,3,0,|M|,|M|-1,|M|+1} x index modes {classic, corpus scanned, corpus incremental, corpus staged = the world delivered in 5 stages with the same queries after every stage, claims often before the file they name and stages without any claim}; each result is compared with a reference evaluator over what has been delivered (set equality at limit -1, order by the documented key, valid first-N) ; special-time worlds: claim dates straddling 1970-01-01T00:00:00Z with permanodes created EXACTLY at the Unix epoch (date attributes in several zone notations, a camliContent file with modtime 0) or 1 ns / 1 s / 999 ms next to it, and worlds with date attributes before 1678 / after 2262 (years 1, 1215, 1455, 2500, 9999, the ends of the int64-nanosecond range, ties across notations), each with directed time/modTime constraints whose bounds lie exactly on those instants (alone, negated, and-ed, two-sided) plus the directed and random constraint lists, under every sort and limit; deep-tree worlds: one static directory chain of 4-6 levels whose lowest directory alone holds the needle file and needle directory (decoy files and side directories at every level), permanodes naming every level through camliContent and a made-up folder attribute: dir recursiveContains in every documented sub-constraint form (blobref prefix, file, dir, and/or), alone, negated, under file/dir parentDir, dir contains, permanode valueInSet, and parentDir chains of the full depth, in both corpus modes and (plain dir constraints) without a corpus; distinct = (world, constraint, sort, limit, mode[@stage]); non-trivial = the reference match set is neither empty nor everything",
 		run)
 }
 
@@ -188,6 +188,7 @@ func run(r *ev.Run) {
 		}
 	}
 	runSpecialWorldsC08(r)
+	runDeepWorldsC08(r)
 	r.Require("world_features", "dangling-edge/camliMember", "dangling-edge/camliPath", "dangling-edge/seeAlso")
 	r.Require("world_features", "custom-edge/seeAlso", "custom-edge/seeAlso-removed", "custom-edge/seeAlso-superseded", "custom-edge/camliContent-names-permanode",
 		"relation-edge-type/parent/custom:seeAlso", "relation-edge-type/parent/custom:camliContent", "relation-edge-type/child/custom:seeAlso", "relation-edge-type/child/custom:camliContent", "relation-edge-type/parent/default-edge", "relation-edge-type/parent/non-ref-attribute",
